@@ -304,6 +304,9 @@ type UpConn struct {
 	Buf     []byte
 	Reqs    chan uint32   // complete requests, in arrival order
 	EOF     chan struct{} // closed when the peer closed / the read failed
+	Acks    chan struct{} // answers to the upstream's own probes (heartbeat / PING acknowledgements)
+	WMu     sync.Mutex    // serializes writes of the driver and of the reader goroutine
+	Hello   bool          // protocol greeting done (HTTP/2)
 	mu      sync.Mutex
 	nreq    int
 	nresp   int
@@ -343,7 +346,7 @@ func (u *Upstream) acceptLoop() {
 		if err != nil {
 			return
 		}
-		uc := &UpConn{C: c, Remote: c.RemoteAddr().String(), Reqs: make(chan uint32, 64), EOF: make(chan struct{})}
+		uc := &UpConn{C: c, Remote: c.RemoteAddr().String(), Reqs: make(chan uint32, 64), EOF: make(chan struct{}), Acks: make(chan struct{}, 64)}
 		u.mu.Lock()
 		u.conns[uc.Remote] = uc
 		u.mu.Unlock()
@@ -372,6 +375,14 @@ func (u *Upstream) acceptLoop() {
 			}
 		}()
 	}
+}
+
+// Write sends bytes to the pool's side of the connection.
+func (uc *UpConn) Write(b []byte) error {
+	uc.WMu.Lock()
+	defer uc.WMu.Unlock()
+	_, err := uc.C.Write(b)
+	return err
 }
 
 // Answered tells the overlap detector that the upstream answered (or abandoned) a request.
